@@ -1,4 +1,181 @@
+/-
+C16 — results are a function of database content and arguments only.
+
+A Lean function is deterministic by construction, so the content of this property is at the
+places where the Python code iterates over a `set` (whose iteration order depends on the hash
+seed) or hands one to SQL.  The model represents such a set by a list; the theorems say that the
+result does not depend on which enumeration of the set that list is:
+  * `sorted(common)` in `_shortest_hyp_paths` / `common_hypernyms` (fix 38f69e7),
+  * `sorted(set(...))` in the export of subcat ids and 1.0 frames (fix 678e2e1) and in `_add_ili`,
+  * the candidate set of a lemmatizer handed to `find_entries` / `find_senses` / `find_synsets`
+    as `form IN (…)`.
+-/
 import WnVerif.Model.Graph
+import WnVerif.Model.Api
+import WnVerif.Lemmas.ListAux
+import WnVerif.Lemmas.Sorted
 namespace WnVerif.Props.C16
-theorem placeholder_true : True := trivial
+open WnVerif.Graph WnVerif.Db
+
+/-! ### strictly sorted lists are determined by their elements -/
+
+theorem sorted_unique {α} (lt : α → α → Prop) (asymm : ∀ a b, lt a b → ¬ lt b a) :
+    ∀ (l l' : List α), l.Pairwise lt → l'.Pairwise lt → (∀ x, x ∈ l ↔ x ∈ l') → l = l' := by
+  intro l
+  induction l with
+  | nil =>
+    intro l' _ _ h
+    cases l' with
+    | nil => rfl
+    | cons b t => exact absurd ((h b).mpr List.mem_cons_self) (by simp)
+  | cons a t ih =>
+    intro l' hl hl' h
+    cases l' with
+    | nil => exact absurd ((h a).mp List.mem_cons_self) (by simp)
+    | cons b t' =>
+      rw [List.pairwise_cons] at hl hl'
+      have irrefl : ∀ x, ¬ lt x x := fun x hx => asymm x x hx hx
+      have hab : a = b := by
+        rcases List.mem_cons.mp ((h a).mp List.mem_cons_self) with e | ha
+        · exact e
+        · rcases List.mem_cons.mp ((h b).mpr List.mem_cons_self) with e | hb
+          · exact e.symm
+          · exact absurd (hl.1 b hb) (asymm _ _ (hl'.1 a ha))
+      subst hab
+      congr 1
+      apply ih t' hl.2 hl'.2
+      intro x
+      constructor
+      · intro hx
+        rcases List.mem_cons.mp ((h x).mp (List.mem_cons_of_mem _ hx)) with e | hx'
+        · subst e; exact absurd (hl.1 x hx) (irrefl x)
+        · exact hx'
+      · intro hx
+        rcases List.mem_cons.mp ((h x).mpr (List.mem_cons_of_mem _ hx)) with e | hx'
+        · subst e; exact absurd (hl'.1 x hx) (irrefl x)
+        · exact hx'
+
+/-! ### `sorted(common)` -/
+
+theorem nkey_inj (a b : N) (h : nkey a = nkey b) : a = b := by
+  cases a <;> cases b <;> simp [nkey] at h ⊢ <;> omega
+
+theorem insertN_sorted (a : N) : ∀ (l : List N), l.Pairwise (fun x y => nkey x < nkey y) → a ∉ l →
+    (insertN a l).Pairwise (fun x y => nkey x < nkey y) := by
+  intro l
+  induction l with
+  | nil => intro _ _; simp [insertN]
+  | cons b t ih =>
+    intro h ha
+    rw [List.pairwise_cons] at h
+    have hab : a ≠ b := fun e => ha (by rw [e]; exact List.mem_cons_self)
+    have hat : a ∉ t := fun e => ha (List.mem_cons_of_mem _ e)
+    simp only [insertN]
+    split
+    · rename_i hle
+      have hlt : nkey a < nkey b := by
+        rcases Nat.lt_or_eq_of_le hle with h1 | h1
+        · exact h1
+        · exact absurd (nkey_inj a b h1) hab
+      rw [List.pairwise_cons]
+      refine ⟨?_, List.pairwise_cons.mpr h⟩
+      intro x hx
+      rcases List.mem_cons.mp hx with rfl | hx
+      · exact hlt
+      · exact Nat.lt_trans hlt (h.1 x hx)
+    · rename_i hgt
+      rw [List.pairwise_cons]
+      refine ⟨?_, ih h.2 hat⟩
+      intro x hx
+      rcases (mem_insertN a t x).mp hx with rfl | hx
+      · omega
+      · exact h.1 x hx
+
+theorem sortN_sorted : ∀ (l : List N), l.Nodup → (sortN l).Pairwise (fun x y => nkey x < nkey y) := by
+  intro l
+  induction l with
+  | nil => intro _; simp [sortN]
+  | cons a t ih =>
+    intro h
+    rw [List.nodup_cons] at h
+    show (insertN a (sortN t)).Pairwise _
+    exact insertN_sorted a _ (ih h.2) (fun hm => h.1 ((mem_sortN t a).mp hm))
+
+/-- whatever order the elements of the Python set `common` are iterated in, `sorted(common)` is
+the same list -/
+theorem C16_sorted_common_oblivious (l l' : List N) (h : l.Nodup) (h' : l'.Nodup) (hm : ∀ x, x ∈ l ↔ x ∈ l') :
+    sortN l = sortN l' := by
+  apply sorted_unique (fun x y => nkey x < nkey y) (fun a b h1 h2 => by omega) _ _ (sortN_sorted l h) (sortN_sorted l' h')
+  intro x
+  rw [mem_sortN, mem_sortN]; exact hm x
+
+/-- … in particular `commonOf` (the model of `sorted(common)`) equals the sort of any other
+enumeration of the same set -/
+theorem C16_common_hypernyms_oblivious (fs fo : List (List N)) (enum : List N) (hn : enum.Nodup)
+    (hm : ∀ x, x ∈ enum ↔ (x ∈ fs.flatten ∧ x ∈ fo.flatten)) : sortN enum = commonOf fs fo := by
+  unfold commonOf
+  apply C16_sorted_common_oblivious _ _ hn ((dedup_nodup _).sublist List.filter_sublist)
+  intro x
+  rw [hm x]
+  simp only [List.mem_filter, mem_dedup, List.contains_iff_mem]
+
+/-! ### `sorted(set(strings))` -/
+
+/-- `sorted(set(xs))` depends only on which strings occur in `xs` — not on their order or
+multiplicity (exported subcat ids, 1.0 frame senses, ILI statuses) -/
+theorem C16_sorted_set_oblivious (l l' : List String) (hm : ∀ x, x ∈ l ↔ x ∈ l') : sortedSet l = sortedSet l' := by
+  apply sorted_unique (· < ·) (fun a b h => String.lt_asymm h) _ _ (sortedSet_sorted l) (sortedSet_sorted l')
+  intro x
+  rw [mem_sortedSet, mem_sortedSet]; exact hm x
+
+/-! ### a candidate set handed to SQL as `form IN (…)` -/
+
+theorem contains_congr (l l' : List String) (hm : ∀ x, x ∈ l ↔ x ∈ l') (x : String) : l.contains x = l'.contains x := by
+  rw [Bool.eq_iff_iff]; simp [hm x]
+
+theorem isEmpty_congr (l l' : List String) (hm : ∀ x, x ∈ l ↔ x ∈ l') : l.isEmpty = l'.isEmpty := by
+  cases l with
+  | nil =>
+    cases l' with
+    | nil => rfl
+    | cons b t => exact absurd ((hm b).mpr List.mem_cons_self) (by simp)
+  | cons a t =>
+    cases l' with
+    | nil => exact absurd ((hm a).mp List.mem_cons_self) (by simp)
+    | cons b t' => rfl
+
+theorem formMatch_congr (db : Db) (l l' : List String) (hm : ∀ x, x ∈ l ↔ x ∈ l') (n a : Bool) (e : Nat) :
+    formMatch db l n a e = formMatch db l' n a e := by
+  unfold formMatch
+  congr 1
+  funext f
+  rw [contains_congr l l' hm]
+  cases f.norm with
+  | none => rfl
+  | some nf => simp only [contains_congr l l' hm]
+
+/-- `words(form)`, `senses(form)`, `synsets(form)`: the query result does not depend on the
+enumeration order (or multiplicity) of the lemmatizer's candidate set -/
+theorem C16_find_entries_forms_oblivious (db : Db) (id : Option String) (l l' : List String) (hm : ∀ x, x ∈ l ↔ x ∈ l')
+    (pos : Option String) (lexids : List Nat) (n a : Bool) :
+    findEntries db id l pos lexids n a = findEntries db id l' pos lexids n a := by
+  unfold findEntries
+  simp only [isEmpty_congr l l' hm, formMatch_congr db l l' hm]
+
+theorem C16_find_senses_forms_oblivious (db : Db) (id : Option String) (l l' : List String) (hm : ∀ x, x ∈ l ↔ x ∈ l')
+    (pos : Option String) (lexids : List Nat) (n a : Bool) :
+    findSenses db id l pos lexids n a = findSenses db id l' pos lexids n a := by
+  unfold findSenses
+  simp only [isEmpty_congr l l' hm, formMatch_congr db l l' hm]
+
+theorem C16_find_synsets_forms_oblivious (db : Db) (id : Option String) (l l' : List String) (hm : ∀ x, x ∈ l ↔ x ∈ l')
+    (pos ili : Option String) (lexids : List Nat) (n a : Bool) :
+    findSynsets db id l pos ili lexids n a = findSynsets db id l' pos ili lexids n a := by
+  unfold findSynsets
+  simp only [isEmpty_congr l l' hm, formMatch_congr db l l' hm]
+
+/-! ### non-vacuity -/
+example : sortN [some 3, none, some 1] = sortN [some 1, some 3, none] := by decide
+example : sortedSet ["b", "a", "b", "c"] = ["a", "b", "c"] := by decide
+
 end WnVerif.Props.C16
